@@ -50,7 +50,7 @@ class Report:
         return 0
 
 # ----------------------------------------------------------------------------- E-GRAM checks
-GRAM_PROPS = ('C01', 'C02', 'C05', 'C08', 'C09', 'C11', 'C16')
+GRAM_PROPS = ('C01', 'C02', 'C05', 'C08', 'C09', 'C11', 'C16', 'C18')
 
 def gram_passes(pid, tier):
     q = tier == 'quick'
@@ -71,6 +71,9 @@ def gram_passes(pid, tier):
         P.append(('error-rule frames NT2 T2 R<=%d, strings<=%d' % (3 if q else 4, 4 if q else 5), base + ['--nt', '2', '--t', '2', '--err', '1', '--maxlen', '4' if q else '5'] + (['--maxR', '3'] if q else [])))
         P.append(('error-rule frames NT2 T3, strings<=%d' % (4 if q else 5), base + ['--nt', '2', '--t', '3', '--err', '1', '--maxlen', '4' if q else '5']))
         P.append(('seed grammars', base + ['--maxlen', '5', '--max-per-frame', '0', '--seeds', os.path.join(VERIF, 'seeds', 'gram_seeds.txt')]))
+    if pid == 'C18':
+        P.append(('custom-lexer frames NT2 T2 (R<=2; with and without an error rule), inputs<=%d over {x,space,\\n}, every script of lexer answers' % (4 if q else 5), base + ['--custom', '1', '--nt', '2', '--t', '2', '--err', '2', '--maxlen', '4' if q else '5'] + (['--maxR', '2'] if q else [])))
+        if not q: P.append(('custom-lexer frames NT2 T3 R<=2, inputs<=4', base + ['--custom', '1', '--nt', '2', '--t', '3', '--err', '2', '--maxlen', '4']))
     if pid == 'C05':
         P.append(('operator grammars NT1 T3 R<=3, all precedence/associativity assignments', base + ['--nt', '1', '--t', '3', '--err', '0', '--maxR', '3', '--maxW', '6' if q else '7', '--maxlen', '4' if q else '5', '--prec-levels', '2' if q else '3', '--rprec-max', '2' if q else '3']))
         P.append(('NT2 T2 R<=%d' % (3 if q else 4), base + ['--nt', '2', '--t', '2', '--err', '0', '--maxR', '3' if q else '4', '--maxlen', '4', '--prec-levels', '2' if q else '3', '--rprec-max', '1' if q else '3']))
@@ -85,6 +88,7 @@ GRAM_RULE = {
  'C08': 'Every grammar of the error-rule frames (one right-side position fixed to the error symbol, everything else enumerated) that is conflict-free by the reference (error treated as a terminal), crossed with every terminal string up to the bound. The real parse() is compared with the documented recovery procedure run on the reference table: result, value tree (kept values are kept), number/position/term of Syntax error reports. Non-trivial = grammar with an error rule that accepts >=1 and rejects >=1 string; outcomes classify runs by (recovered/failed, states popped, terms discarded).',
  'C09': 'Same grammar x string space as C01 (grammars without error rules). The captured error stream must be empty on success and otherwise exactly one line naming the first offending term and its [line:column] as given by the reference driver on the canonical table (for grammars with unproductive reachable symbols only the shape of the report is judged); a verbose re-run must not recognise any term after the report.',
  'C11': 'Every grammar inside the bounds (conflict-free, S/R, R/R, accept/reduce). The real write_diag_str text is split into rules, states, item lines and action lines and compared (1) with the dumped parse table the parser executes, (2) with the reference canonical LR(1) automaton matched state by state from state 0: conflict lines iff the reference has a conflict in that state on that term, rule named = rule of the conflicting completed item, side = documented preference. Non-trivial = grammars with at least one conflict or more than 2 states.',
+ 'C18': 'Frames whose terms are custom_term and whose lexer is a scripted use_lexer<>: for every conflict-free grammar of the frame bounds and every input over {x, space, newline} up to the bound, every script of lexer answers is explored depth-first (at each match() call every (index < T, 1 <= length <= remaining) pair and the default-constructed failure result; the parse is re-run per script, replaying the chosen prefix). Oracle: match() is called exactly at the term starts implied by the previous answers and default whitespace skipping, exactly as many times as the documented driver needs terms; result, value tree (lexeme slices), messages and their positions equal the documented driver (with recovery) run on the answered token stream. Non-trivial = grammars with both accepted and rejected scripts.',
  'C16': 'Grammar x string space of C01 plus error-rule frames; each input is parsed through five call forms (ostream, no stream, verbose+ostream, verbose+user stream type, verbose+no_stream). Results and functor-call logs must be identical; the verbose text is replayed line by line against the dumped real table and the functor log (every Recognized/Shift/Reduced/Go to/recovery line must be the action the table prescribes, every functor call must be announced), and the messages inside the trace must equal the non-verbose stream.',
 }
 
@@ -150,7 +154,7 @@ def run_gram(pid, tier, rep, deadline_s):
                  'spec': cr['spec'], 'nt': cr['nt'], 't': cr['t'], 'pspec': cr['prec'], 'rspec': cr['rprec'], 'input': cr['input'], 'engine': 'gram', 'grammar': cr['gram']})
     evals = c.get(pid + '.evals', 0) or c.get('grammars', 0)
     nontriv = {'C01': c.get('nontrivial_lr1', 0), 'C02': c.get('nontrivial_lr1', 0), 'C09': c.get('nontrivial_lr1', 0), 'C16': c.get('nontrivial_lr1', 0) + c.get('nontrivial_err', 0),
-               'C08': c.get('nontrivial_err', 0), 'C05': c.get('C05.assignments', 0), 'C11': c.get('grammars', 0) - c.get('grammars_lr1', 0)}.get(pid, 0)
+               'C08': c.get('nontrivial_err', 0), 'C18': c.get('nontrivial_custom', 0), 'C05': c.get('C05.assignments', 0), 'C11': c.get('grammars', 0) - c.get('grammars_lr1', 0)}.get(pid, 0)
     rep.coverage = {
         'states': c.get('states', 0), 'transitions': c.get('cells_compared', 0) + c.get('parses', 0),
         'traces_validated_against_impl': c.get('parses', 0),
